@@ -85,7 +85,7 @@ LAYOUTS_Q = [[], [14], [18], [20], [7], [15], [14, 7], [20, 7, 18], [15, 14]]
 LAYOUTS_T = LAYOUTS_Q + [[14, 14], [7, 7], [18, 7, 7, 14], [20, 20, 7, 15], [15, 15], [14, 18, 20, 7]]
 
 
-NAMED_Q = [dict(layouts=[14, 14, 14], names=["md12", "md127", "md12p1"]), dict(layouts=[20, 20, 20], names=["dm-1", "dm-10", "dm-2"])]
+NAMED_Q = [dict(layouts=[14, 14, 14], names=["md12", "md127", "md12p1"]), dict(layouts=[20, 20, 20], names=["dm-1", "dm-10", "dm-2"]), dict(layouts=[14, 14], names=["cciss/c0d0", "cciss/c0d0p1"])]
 NAMED_T = NAMED_Q + [dict(layouts=[18, 18, 18, 18], names=["nvme0n1", "nvme0n1p1", "nvme0n10", "nvme0n10p2"]), dict(layouts=[14, 14, 14], names=["loop1", "loop10", "loop11"]),
                      dict(layouts=[14, 7, 14], names=["sda", "sda1", "sda10"]), dict(layouts=[14, 14], names=["mmcblk0", "mmcblk0p1"])]
 
@@ -118,7 +118,8 @@ def disks(ctx, layouts, names=None):
         lines.append("   " + " ".join(toks) + "\n")
         whole[name] = ctx.flag(f"whole{i}")          # does /sys/block/<name> exist?
         if whole[name]:
-            k.dirs[f"/sys/block/{name}"] = []
+            k.dirs["/sys/block/" + name.replace("/", "!")] = []      # sysfs spells the slash of names like cciss/c0d0 as '!'
+
     k.files["/proc/diskstats"] = "".join(lines)
     k.dirs["/sys/block"] = []
     with k.installed():
